@@ -11,6 +11,9 @@ package gff
 //@   ensures [c14.value] implies(result2 == nil, (atoiok(f) && result1 == atoi(f) && 0 <= result1 && result1 <= 2) || (t != "CDS" && f == "." && result1 == 0))
 //@   ensures [c14.accepts] implies(atoiok(f) && 0 <= atoi(f) && atoi(f) <= 2, result2 == nil && result1 == atoi(f))
 //@   ensures [c18.refuses] implies(!(atoiok(f) && 0 <= atoi(f) && atoi(f) <= 2) && !(t != "CDS" && f == "."), result2 != nil)
+//@ # column 1: the sequence id is handed back unchanged, accepted or refused
+//@ func seqidFromField
+//@   ensures [value] result1 == f
 //@ # column 7
 //@ func strandFromField
 //@   ensures [value] result1 == f
@@ -19,4 +22,5 @@ package gff
 //@ func featureFromLine
 //@   ensures [c18.columns] implies(result2 == nil, splitn(l, "\t") == 9)
 //@   ensures [c14.fields] implies(result2 == nil, result1.Type == splitat(l, "\t", 2) && result1.Start == atoi(splitat(l, "\t", 3)) && result1.End == atoi(splitat(l, "\t", 4)) && result1.Strand == splitat(l, "\t", 6))
+//@   ensures [c14.seqid] implies(result2 == nil, result1.Seqid == splitat(l, "\t", 0) && result1.Source == splitat(l, "\t", 1))
 //@   ensures [c14.phase] implies(result2 == nil, (atoiok(splitat(l, "\t", 7)) && result1.Phase == atoi(splitat(l, "\t", 7)) && 0 <= result1.Phase && result1.Phase <= 2) || (result1.Type != "CDS" && splitat(l, "\t", 7) == "." && result1.Phase == 0))
